@@ -315,7 +315,8 @@ def field_accumulation(chk, repo, clause):
     insert_accumulates(chk, repo, clause)
     for key, intensity, dtype in (('wavefront.Wavefront.field', FALSE, 'complex'),
                                   ('wavefront.Wavefront.intensity', TRUE, 'float')):
-        f, paths, _ = analyse(repo, key)
+        # (an accessor that hands the work to Wavefront.insert is followed into it)
+        f, paths, _ = analyse(repo, key, inline=['wavefront.Wavefront.insert'], types={('sym', 'self'): repo.cls('wavefront.Wavefront')})
         rets = returns(paths)
         if not rets:
             raise AnalysisError(f'{key}: no returning path')
@@ -340,6 +341,14 @@ def field_accumulation(chk, repo, clause):
                 isinstance(p.ret, Poly) and p.ret.single_atom() is not None and p.ret.single_atom()[0] == 'loop' \
                 and p.ret.single_atom()[1] == lp['phi'][var].single_atom()[1]
             det = f'starts from {fmt(pre)}; {len(ins)} insert call(s)'
+        elif ins:
+            # the accumulator is threaded through a fold whose step hands it back (insert returns its `out`): every insert
+            # works on the array the fold started with, which is what is returned
+            o_ = ins[0].bound.get('out')
+            oa_ = o_.single_atom() if isinstance(o_, Poly) else None
+            ok_zero = oa_ is not None and is_app(oa_, 'zeros') and oa_[2][0] in (nf.attr(S('self'), 'shape'),)
+            ok_only = len(ins) == 1 and ins[0].in_loop and ins[0].bound.get('intensity') == intensity and p.ret == o_
+            det = f'inserts into {fmt(o_)[:60]}, returns {fmt(p.ret)[:60]}; {len(ins)} insert call(s)'
         chk.ob(clause, 'D-zero-init', key, 'accumulates into zeros(self.shape)', ok_zero, det, f.loc())
         chk.ob(clause, 'D-zero-init', key, f'the only contributions are insert(field, out, intensity={intensity!r})',
                ok_only, det, f.loc())
